@@ -236,7 +236,7 @@ class FullGen(Gen):
             f = sc.fns[-1] if sc.fns else None
             if f is not None and text.startswith("def ") and "fuel" not in text:
                 tyname = {INT: "int", STR: "str", BOOL: "bool", LI: "list[int]", LS: "list[str]", DSI: "dict[str, int]", DIS: "dict[int, str]",
-                          TIS: "tuple[int, str]", LLI: "list[list[int]]"}
+                          TIS: "tuple", LLI: "list[list[int]]"}
                 head, rest = text.split("(", 1)
                 params, tail = rest.rsplit(")", 1)
                 if params.strip():
@@ -286,6 +286,7 @@ def gen_program(rng, **kw):
 def gen_library(rng, name, **kw):
     """A module meant to be frozen and loaded: returns (lines, exported vars, exported pure fns)."""
     kw.setdefault("inject_fail", 0.0)
+    kw.setdefault("risk", 0.0)
     g = FullGen(rng, **kw)
     lines = g.program()
     sc = g.top_scope
